@@ -194,6 +194,16 @@ def tree_checks(ctx, shard):
                 os.makedirs(os.path.dirname(p), exist_ok=True)
                 with open(p, "wb") as f:
                     f.write(data)
+            # decoding must not depend on what was read before: a Latin-1 file (not valid UTF-8) next to UTF-8 files whose non-ASCII
+            # characters sit in identifiers and on the last line of a function, in directories that are walked before and after it
+            for d in ("aa_first", "zz_last"):
+                for rel, data in ((f"{d}/latin.py", "# caf\xe9\ndef plain(a):\n    return a  # \xfc\n".encode("latin-1")),
+                                  (f"{d}/utf8.py", "def gr\u00f6\u00dfe(a):\n    return a\n\n\ndef greet(n):\n    return n + 'gr\u00fc\u00df dich \u00e4\u00f6\u00fc'\n".encode("utf-8")),
+                                  (f"{d}/utf8.js", "function gr\u00fc\u00dfen(a) {\n  return a + '\u00e9\u00e8';\n}\n".encode("utf-8"))):
+                    p = os.path.join(root, rel)
+                    os.makedirs(os.path.dirname(p), exist_ok=True)
+                    with open(p, "wb") as f:
+                        f.write(data)
             with open(os.path.join(root, ".gitignore"), "w") as f:
                 f.write("build\ndist\nvendor/*\n!vendor/kept.py\ngen/**\n!gen/out/\n!gen/out/keep.js\n*.tmp\nnode_modules\n!*.py\nvendor/dropped.py\n")
             base = canon_doc(fresh_doc(root))
